@@ -29,6 +29,7 @@ type VerifC41Hello struct {
 	SessionTicket   []byte
 	SessionId       []byte
 	ServerName      string
+	Vip             net.IP // VIP the connection arrived on (nil = none); not part of the hello
 }
 
 // VerifC41Nego is what readClientHello decided.
@@ -106,6 +107,9 @@ func VerifC41ReadClientHello(cfg *Config, h *VerifC41Hello) *VerifC41Nego {
 	rec := []byte{byte(recordTypeHandshake), 3, 1, byte(len(body) >> 8), byte(len(body))}
 	fc := &verifC41Conn{in: append(rec, body...)}
 	c := Server(fc, cfg)
+	if h.Vip != nil {
+		c.param = verifC41Param{h.Vip}
+	}
 	hs := serverHandshakeState{c: c}
 	nCurves := len(h.Curves)
 	isResume, err := hs.readClientHello()
